@@ -73,9 +73,15 @@ TypeOf(e, ctx, env) ==
     [] OTHER -> "?"
 
 \* statements in the KvExec shape
+\* the types of the named select fields; a field may be built on other names (in either direction, cycles are refused
+\* elsewhere): iterate until the chain is resolved
+RECURSIVE EnvRounds(_, _, _, _)
+EnvRounds(named, ctx, env, n) ==
+  IF n = 0 THEN env
+  ELSE EnvRounds(named, ctx, [i \in 1..Len(named) |-> [nm |-> named[i].nm, tp |-> TypeOf(named[i].e, ctx, env)]], n - 1)
 EnvTypes(stmt, ctx) ==
   LET named == SelectSeq(stmt.fields, LAMBDA f : f.nm # "") IN
-  [i \in 1..Len(named) |-> [nm |-> named[i].nm, tp |-> TypeOf(named[i].e, ctx, <<>>)]]
+  EnvRounds(named, ctx, <<>>, Len(named))
 
 WellTypedStmt(stmt) ==
   CASE stmt.kind = "select" ->
